@@ -19,6 +19,7 @@ package unary
 //@   assigns unary.unaryNegation.series, ghost started
 //@   ensures result == nil ==> forall j in 0..len(u.workers) :: u.workers[j].started
 //@ func (*unaryNegation).Next
+//@   refines model.VectorOperator.Next
 //@   requires ctx != nil && u != nil && u.next != nil && (forall j in 0..len(u.workers) :: u.workers[j] != nil)
 //@   requires series-loaded-once: u.once != 0 ==> forall j in 0..len(u.workers) :: u.workers[j].started
 //@   panics may
